@@ -28,7 +28,8 @@ ASSUMPTIONS = [
     "rejected = Compile returns None, exits or raises in the front end",
 ]
 
-CONSTRUCTS = ["block", "if", "ifelse", "for", "while", "do", "if-unbraced", "while-unbraced"]
+CONSTRUCTS = ["block", "if", "ifelse", "for", "while", "do", "if-unbraced", "while-unbraced",
+              "block-empty", "for-empty", "while-empty"]
 
 
 def lit(v):
@@ -60,6 +61,17 @@ def build_list(specs, namer):
             nm = namer("u")
             d = M.Decl(INT, nm, lit(namer.n))
             out.append(M.If(cond, d) if c == "if-unbraced" else M.While(cond, d))
+            continue
+        if c.endswith("-empty"):
+            # a construct whose braces contain nothing: it still opens and closes a scope
+            if c == "block-empty":
+                out.append(M.Block([]))
+            elif c == "while-empty":
+                out.append(M.While(cond, M.Block([])))
+            else:
+                i = namer("i")
+                out.append(M.For(M.Decl(INT, i, lit(0)), M.Bin("<", M.Var(i, INT), lit(2)),
+                                 M.Affix("++", M.Var(i, INT), True), M.Block([])))
             continue
         nm = namer()
         body = M.Block([M.Decl(INT, nm, lit(namer.n)), use_stmt(nm)] + build_list(inner, namer) + [use_stmt(nm)])
